@@ -91,6 +91,8 @@ def run_shard(args):
     finally:
         shutil.rmtree(work, ignore_errors=True)
     out = core.REC.dump()
+    if status == "ok" and core.REC.aborted:
+        status = "driver_error: %d workload piece(s) given up, the first: %s" % (len(core.REC.aborted), core.REC.aborted[0])
     out["status"] = status
     out["shard"] = [args.shard, args.nshards]
     out["wall_s"] = time.time() - t0
